@@ -50,9 +50,13 @@ package postprocessor
 //@   requires item != nil && item.url != nil && config.config != nil
 //@   ensures [def] result == (!config.config.DisableAssetsCapture && item.url.body != nil)
 
+// closeBody: the node's response body (spooled temp file) is closed exactly once and forgotten.
 //@ func closeBody
-//@   opaque
-//@   modifies models.URL::body
+//@   property C16
+//@   requires seed != nil && seed.url != nil
+//@   modifies seed.url.body, closes
+//@   ensures [closed] seed.url.body == nil // C16: no response body or temporary file remains open
+//@   ensures [once] io.nCloses() == old(io.nCloses()) + ite(old(seed.url.body) != nil, 1, 0)
 
 // extractAssets: dispatch to the extractors (abstract here, see C19/C07); what C06 needs is
 // the hop bookkeeping of what it returns: nil / self-referencing assets are filtered out and
@@ -122,6 +126,7 @@ package postprocessor
 //@   loop range#2 invariant [hops-out] forall(k, 0, len(outlinks), outlinks[k] != nil ==> outlinks[k].url != nil && outlinks[k].url != item.url && (outlinks[k].url.Hops == h0 + 1 || (domainscrawl.dcOn() && outlinks[k].url.Hops == 0)))
 //@   ensures [via] @C15 forall(j, 0, len(result), result[j] != nil ==> result[j].seedVia == models.urlKey(item.url)) // C15: every outlink the pipeline discovers is handed to the queue with ... its parent page as 'via'
 //@   ensures [outlink-hops] forall(k, 0, len(result), result[k] != nil ==> result[k].url != nil && (result[k].url.Hops == item.url.Hops + 1 || (domainscrawl.dcOn() && result[k].url.Hops == 0))) // C06: outlinks ... carry the parent's hops + 1, outlinks that match it (--domains-crawl) are queued with hops 0
+//@   ensures [body-closed] @C16 item.url.body == nil // C16: no response body ... remains open (postprocessItem defers closeBody: every exit path, including the early ones, closes the node's body)
 //@   ensures [not-archived] old(item.status) != models.ItemArchived ==> item.status == old(item.status) && len(item.children) == old(len(item.children)) && len(result) == 0
 //@   ensures [redirect-max] old(item.status == models.ItemArchived && isRedirectCode(item.url.response.StatusCode) && item.url.Redirects >= config.config.MaxRedirect) ==> item.status == models.ItemCompleted && len(item.children) == 0 && len(result) == 0 // C06: at most --max-redirect redirects are followed in a chain
 //@   ensures [redirect-one] old(item.status == models.ItemArchived && isRedirectCode(item.url.response.StatusCode) && item.url.Redirects < config.config.MaxRedirect) ==> item.status == models.ItemGotRedirected && len(item.children) == 1 && item.children[0].url.Redirects == old(item.url.Redirects) + 1 && item.children[0].url.Hops == old(item.url.Hops) && item.children[0].status == models.ItemFresh && len(result) == 0 // C06: redirect targets inherit the page's hops
